@@ -1,13 +1,19 @@
-import ShredModel.Lemmas.Invariance
+import ShredModel.Lemmas.InvarianceSeq
+import ShredModel.Model.Builder
 /-!
 # C19 — the plan is a deterministic function of the registration sequence
 
 Determinism is definitional for the model (the layout *is* a function of the registration
-list); what the theorem adds is that nothing the code leaves unspecified can leak into it:
-an injective relabelling `ρ` of resources (other Rust types, other dynamic ids — hence also
-`TypeId`'s compiler-chosen order, which only enters through `sort`), any permutation or
-duplication of a system's declared lists and any membership-preserving normalisation of them
-choose the same place for every system.
+list); what the theorems add is that nothing the code leaves unspecified can leak into it:
+
+* `C19_layout_invariant`: an injective relabelling `ρ` of resources (other Rust types, other
+  dynamic ids — hence also `TypeId`'s compiler-chosen order, which only enters through `sort`),
+  any permutation or duplication of each system's declared lists: the executed table and the
+  printed table of the **five-table builder of the code** are identical, for every registration
+  sequence;
+* `C19_names_irrelevant`: an injective renaming of system names, applied consistently to the
+  dependency lists, resolves every dependency list to the same ids and rejects the same
+  registrations — the name map is only ever looked up.
 -/
 namespace Shred
 
@@ -20,6 +26,87 @@ theorem C19_insert_invariant {ρ : ResId → ResId} (hinj : ∀ a b, ρ a = ρ b
     ZRel ρ (z.insert zJoinOk norm dedupN dep id sys d) (z'.insert zJoinOk norm' dedupN dep id sys d') :=
   insert_rel hinj h norm norm' hnorm hnorm' dedupN dep id sys hr hw ht
 
+/-- **C19 (whole sequences, the code's own tables).** -/
+theorem C19_layout_invariant {ρ : ResId → ResId} (hinj : ∀ a b, ρ a = ρ b → a = b)
+    {ops ops' : List SOp} (h : OpsRel ρ ops ops') :
+    (runOps ops').1.stages = (runOps ops).1.stages ∧ (runOps ops').1.ids = (runOps ops).1.ids ∧
+    (runOps ops').1.barrier = (runOps ops).1.barrier := by
+  obtain ⟨y, y', hy, hy', hr, _⟩ :=
+    opsRel_foldl hinj h ({}, 0) ({}, 0) {} {} rfl zips_init zips_init (zrel_init ρ)
+  have hp := proj_eq_of_zrel hr
+  refine ⟨?_, ?_, ?_⟩
+  · show (ops'.foldl SOp.step ({}, 0)).1.stages = (ops.foldl SOp.step ({}, 0)).1.stages
+    rw [stages_eq_of_zips hy', stages_eq_of_zips hy, hp.1]
+  · show (ops'.foldl SOp.step ({}, 0)).1.ids = (ops.foldl SOp.step ({}, 0)).1.ids
+    rw [ids_eq_of_zips hy', ids_eq_of_zips hy, hp.2]
+  · show (ops'.foldl SOp.step ({}, 0)).1.barrier = (ops.foldl SOp.step ({}, 0)).1.barrier
+    rw [← hy'.barrier, ← hy.barrier, hr.barrier]
+
+/-- non-vacuity: swapping two resources and reversing a read list is such a relabelling -/
+example : OpsRel (fun r => if r = ⟨0, 0⟩ then ⟨1, 7⟩ else if r = ⟨1, 7⟩ then ⟨0, 0⟩ else r)
+    [.insert [] ⟨[⟨0, 0⟩, ⟨2, 0⟩], [⟨1, 7⟩], 3⟩, .barrier]
+    [.insert [] ⟨[⟨2, 0⟩, ⟨1, 7⟩, ⟨2, 0⟩], [⟨0, 0⟩], 3⟩, .barrier] := by
+  refine .insert ?_ ?_ rfl (.barrier .nil)
+  · intro x
+    simp only [List.mem_cons, List.not_mem_nil, or_false]
+    constructor
+    · rintro (rfl | rfl | rfl)
+      · exact ⟨⟨2, 0⟩, by simp, by decide⟩
+      · exact ⟨⟨0, 0⟩, by simp, by decide⟩
+      · exact ⟨⟨2, 0⟩, by simp, by decide⟩
+    · rintro ⟨y, (rfl | rfl), rfl⟩
+      · right; left; decide
+      · left; decide
+  · intro x
+    simp only [List.mem_cons, List.not_mem_nil, or_false]
+    constructor
+    · rintro rfl; exact ⟨⟨1, 7⟩, rfl, by decide⟩
+    · rintro ⟨y, rfl, rfl⟩; decide
+
+namespace DispatcherBuilder
+
+theorem lookup_rename (f : String → String) (hf : ∀ a b, f a = f b → a = b)
+    (m : List (String × SysId)) (x : String) :
+    lookup (m.map fun p => (f p.1, p.2)) (f x) = lookup m x := by
+  induction m with
+  | nil => rfl
+  | cons p m ih =>
+    have e1 : lookup ((p :: m).map fun p => (f p.1, p.2)) (f x)
+        = if f p.1 == f x then some p.2 else lookup (m.map fun p => (f p.1, p.2)) (f x) := by
+      simp only [lookup, List.map_cons, List.find?_cons]
+      cases f p.1 == f x <;> rfl
+    have e2 : lookup (p :: m) x = if p.1 == x then some p.2 else lookup m x := by
+      simp only [lookup, List.find?_cons]
+      cases p.1 == x <;> rfl
+    rw [e1, e2, ih]
+    by_cases h : p.1 = x
+    · simp [h]
+    · have : f p.1 ≠ f x := fun e => h (hf _ _ e)
+      simp [h, this]
+
+/-- **C19 (names).** Under an injective renaming of names the dependency list resolves to the
+same ids, or fails at the same (renamed) name. -/
+theorem C19_names_irrelevant (f : String → String) (hf : ∀ a b, f a = f b → a = b)
+    (m : List (String × SysId)) (deps : List String) :
+    resolve (m.map fun p => (f p.1, p.2)) (deps.map f) =
+      match resolve m deps with
+      | .ok ids => .ok ids
+      | .error x => .error (f x) := by
+  induction deps with
+  | nil => rfl
+  | cons d ds ih =>
+    simp only [List.map_cons, resolve, lookup_rename f hf]
+    cases lookup m d with
+    | none => rfl
+    | some id =>
+      simp only []
+      rw [ih]
+      cases resolve m ds <;> rfl
+
+end DispatcherBuilder
 end Shred
 
 #print axioms Shred.C19_insert_invariant
+#print axioms Shred.C19_layout_invariant
+#print axioms Shred.DispatcherBuilder.lookup_rename
+#print axioms Shred.DispatcherBuilder.C19_names_irrelevant
